@@ -161,6 +161,9 @@ def spell(owner_inherit, ttl_inherit, class_mode, abs_names, multiline, use_ttl_
     else:
         for i in (1, 2, 3):
             lines.append(rec("c%d" % i, ttl, cls, "A 10.0.1.%d" % i))
+    # a record inheriting its owner from the line before (the last generated / written name: c3)
+    lines.append(rec("" if owner_inherit else "c3", ttl, cls, "TXT \"after\""))
+    canon += "c3 60 IN TXT \"after\"\n"
     return canon, BASE + "\n".join(lines) + "\n"
 
 
